@@ -152,6 +152,39 @@ def make_model(sc, input_method=None, memory_size=None):
     raise ValueError(est)
 
 
+_VEC = {}
+
+
+def vec_array(data):
+    """np.array(data["vectors"]) — memoised by content, so that every call of a scenario that uses the same vector set
+    passes the very same ndarray object (a cache keyed on object identity then behaves as it would for a user who
+    keeps one `vectors` array around)."""
+    key = json.dumps(data["vectors"])
+    if key not in _VEC:
+        _VEC[key] = np.array(data["vectors"], dtype=np.float64)
+    return _VEC[key]
+
+
+def prehistory(sc, model, data):
+    """Give the estimator object a past: a fit on a reordered, re-weighted copy of the data (hence another reference
+    and other components) and transforms with the scenario's own vector set.  Correct code forgets all of it on refit."""
+    try:
+        alt = dict(data)
+        rows = [list(r) for r in data["rows"]] if "rows" in data else None
+        if rows is None:
+            return
+        alt["rows"] = [[(j, w * (1.0 + 0.5 * ((i + j) % 3))) for (j, w) in r] for i, r in enumerate(rows[::-1])]
+        sc2 = dict(sc)
+        if sc.get("reference_size"):
+            sc2["reference_size"] = sc["reference_size"] + 1
+        sc2["reference"] = None
+        fit_model(sc2, model, alt)
+        do_transform(sc, model, {"data": data})
+        do_transform(sc, model, {"data": alt})
+    except Exception:  # noqa
+        pass
+
+
 def fit_model(sc, model, data):
     kw = {}
     if sc.get("reference") is not None:
@@ -159,9 +192,9 @@ def fit_model(sc, model, data):
         kw["reference_distribution"] = np.array(sc["reference"]["distribution"], dtype=np.float64)
     im = getattr(model, "input_method", "spmatrix")
     if sc["est"] == "approx":
-        return model.fit(build_sparse(data), vectors=np.array(data["vectors"], dtype=np.float64))
+        return model.fit(build_sparse(data), vectors=vec_array(data))
     if im == "spmatrix":
-        return model.fit(build_sparse(data), vectors=np.array(data["vectors"], dtype=np.float64), **kw)
+        return model.fit(build_sparse(data), vectors=vec_array(data), **kw)
     ds, vs = lists_of(data)
     if im == "lil":
         return model.fit(ds, vectors=vs, **kw)
@@ -181,10 +214,10 @@ def do_transform(sc, model, call):
     if sc["est"] == "approx":
         if call.get("refit"):
             m2 = make_model(sc)
-            return m2.fit_transform(build_sparse(data), vectors=np.array(data["vectors"], dtype=np.float64))
+            return m2.fit_transform(build_sparse(data), vectors=vec_array(data))
         return model.transform(build_sparse(data))
     if im == "spmatrix":
-        return model.transform(build_sparse(data), vectors=np.array(data["vectors"], dtype=np.float64))
+        return model.transform(build_sparse(data), vectors=vec_array(data))
     ds, vs = lists_of(data)
     if im == "lil":
         if call.get("container") == "tuple":
@@ -222,8 +255,10 @@ def run_scenario(sc):
     for im in sc.get("input_methods", [sc.get("input_method", "spmatrix")]):
         m = make_model(sc, input_method=im)
         b = base[im] if isinstance(base, dict) and im in base else base
+        if sc.get("prehistory") and im == "spmatrix" and sc["est"] != "approx":
+            prehistory(sc, m, b)
         if sc["est"] == "approx":
-            emb = m.fit_transform(build_sparse(b), vectors=np.array(b["vectors"], dtype=np.float64))
+            emb = m.fit_transform(build_sparse(b), vectors=vec_array(b))
             out.setdefault("fit", {})[im] = {"embedding": tol_list(emb)}
         else:
             fit_model(sc, m, b)
